@@ -33,6 +33,23 @@ partial def loop (h : IO.FS.Stream) (out : IO.FS.Stream) (w : Option World) : IO
       let z1 := Sha256.hash32Concat zero32 zero32
       out.putStrLn s!"{hexOfBytes abc} {hexOfBytes z1} ||| *"
       loop h out w
+    | ["conc-begin"] =>
+      out.putStrLn "ok ||| ok"
+      loop h out w
+    | ["conc-end"] =>
+      out.putStrLn "ok ||| ok"
+      -- thread-private slots (>= 100) do not outlive the block
+      loop h out (w.map fun w => { w with colls := w.colls.filter (·.1 < 100),
+                                          scolls := w.scolls.filter (·.1 < 100) })
+    | "T" :: _ :: rest =>
+      match w with
+      | none =>
+        out.putStrLn "no-cfg ||| no-cfg"
+        loop h out w
+      | some w =>
+        let (w', (m, s)) := step w (" ".intercalate rest)
+        out.putStrLn s!"{m} ||| {s}"
+        loop h out (some w')
     | _ =>
       match w with
       | none =>
